@@ -53,7 +53,7 @@ def run_linediff(ctx, name, lean_mode, timeout=7200):
     return res
 
 
-def aux_stream(ctx, res, prefix, lean_mode, what, timeout=3600):
+def aux_stream(ctx, res, prefix, lean_mode, what, timeout=3600, label='the real airgapped machine and the Lean model of its key-generation handlers'):
     """a second line stream written by the same harness run (<prefix>_ops.txt / <prefix>_obs.txt): the compiled Lean
     model in mode <lean_mode> must give the same answers"""
     LEAN, ENV = G['LEAN'], G['ENV']
@@ -74,7 +74,7 @@ def aux_stream(ctx, res, prefix, lean_mode, what, timeout=3600):
             return None
     diffs, total, n = plain_diff(ops, obs, lean_obs)
     if total:
-        ctx.broken.append(dict(kind='correspondence', what='%s: the real airgapped machine and the Lean model of its key-generation handlers disagree on %d of %d operations' % (what, total, n),
+        ctx.broken.append(dict(kind='correspondence', what='%s: %s disagree on %d of %d operations' % (what, label, total, n),
                                detail='', diffs=diffs[:10], script=ops))
     return dict(operations=n, disagreements=total)
 
@@ -200,12 +200,18 @@ def prog_C16(ctx):
     def cov(ctx, st):
         ctx.cov.update(evaluations=st['Ops'], distinct_nontrivial=st['DistinctSizes'] + st['Histories'], exhaustive=False,
                        histories=st['Histories'], sends=st['Sends'], reads=st['Reads'], writers_max=st['MaxWriters'])
-    generic(ctx, ['Dc4bcVerif.Props.C16', 'Dc4bcVerif.Props.C16Src', 'Dc4bcVerif.Props.SrcFacts'], 'boarddiff', 'board', ['C16'],
+    res = generic(ctx, ['Dc4bcVerif.Props.C16', 'Dc4bcVerif.Props.C16Lines', 'Dc4bcVerif.Props.C16Src', 'Dc4bcVerif.Props.SrcFacts'], 'boarddiff', 'board', ['C16'],
             ['translator: the two line limits (counting scanner and reading scanner) are read from storage/file_storage/fileStorage.go on this run',
              'correspondence boarddiff: file_storage.NewFileStorage/Send/GetMessages/IgnoreMessages with several writers on separate handles (goroutines; OS processes in the thorough tier) vs the Lean board model fed the observed linearisation',
              'trusted: flock(2) mutual exclusion between open file descriptions, O_APPEND single-write appends (no torn lines), bufio.Scanner token-limit semantics (modelled: a line is readable iff len+1 <= limit)'],
             'generated histories: 1-4 writers, message sizes from 0 to just under 1 MiB with emphasis on 64 KiB and 1 MiB boundaries, ignore lists by id and by offset, every read offset; distinct_nontrivial = distinct message sizes + histories',
             cov_from_stats=cov)
+    # lines that are no messages (a tail torn by a writer that died, a line that does not decode) between sends: the odd-line
+    # histories against Model/BoardLines.lean (Props/C16Lines.lean)
+    r = aux_stream(ctx, res, 'boardlines', 'boardlines', 'boardlines', label='the real file board and the Lean model of a data file with lines that are no messages')
+    if r is not None:
+        ctx.cov['lines_that_are_no_messages'] = r
+        ctx.cov['trusted_base'] = ctx.cov.get('trusted_base', []) + ['correspondence boardlines (a second stream of the boarddiff run): the odd-line histories - a writer that dies in the middle of an append (a separate handle writes the first half of a line), a complete line that does not decode, each between sends - as operations of Model/BoardLines.lean: every offset Send assigns and every GetMessages answer from every offset must be the model\'s']
 
 
 ALG_TRUSTED = ['verif hooks (build tag verif, add-only): dealer coefficients, shares and keys are read from the real machines',
@@ -306,7 +312,7 @@ def monitor_only(ctx, driver, monitor_prefixes, cov_key, timeout=7200):
 
 def prog_C18(ctx):
     node_tr = list(NODE_TRUSTED)
-    generic(ctx, ['Dc4bcVerif.Props.C18', 'Dc4bcVerif.Props.C18Fsm', 'Dc4bcVerif.Props.C18Node', 'Dc4bcVerif.Props.C18Reinit', 'Dc4bcVerif.Props.C18ReinitReject', 'Dc4bcVerif.Props.C18Air'], 'nodediff', 'node', ['C18'], node_tr, NODE_RULE, cov_from_stats=node_cov)
+    generic(ctx, ['Dc4bcVerif.Props.C18', 'Dc4bcVerif.Props.C18Fsm', 'Dc4bcVerif.Props.C18Node', 'Dc4bcVerif.Props.C18Reinit', 'Dc4bcVerif.Props.C18ReinitReject', 'Dc4bcVerif.Props.C18Air', 'Dc4bcVerif.Props.C16Lines'], 'nodediff', 'node', ['C18'], node_tr, NODE_RULE, cov_from_stats=node_cov)
     ev = ctx.cov.get('evaluations', 0)
     res = run_linediff(ctx, 'sszdiff', 'ssz')
     if res is not None:
